@@ -40,6 +40,7 @@ PUBACK_CODES = [0x80, 0x83, 0x87, 0x90, 0x91, 0x97, 0x99, 256]
 TOPICS = ["t/1", "t/2", "w/1", "w/2"]
 FILTERS = ["t/1", "t/2"]
 OBS_FILTER = "#"
+OBS2_FILTER = "+/2"      # the second observer: matches t/2 and w/2 only, so a topic rewrite 1 <-> 2 changes who is served
 SWAP = {"t/1": "t/2", "t/2": "t/1", "w/1": "w/2", "w/2": "w/1"}
 NOWILL = {"has": False, "t": "", "p": "", "q": 0}
 WILLS = [NOWILL, {"has": True, "t": "w/1", "p": "wp", "q": 1}]
@@ -82,6 +83,7 @@ def mc_body(ver=5, deviations=(), conn=(0x87,), sub=(0x87,), unsub=(0x87,), pub=
         "mc_TopicSet == " + tla_set([rec(t) for t in TOPICS]),
         "mc_FilterSet == " + tla_set([rec(f) for f in FILTERS]),
         "mc_ObsFilter == " + rec(OBS_FILTER),
+        "mc_Obs2Filter == " + rec(OBS2_FILTER),
         "mc_Swap == " + tla_fun(SWAP),
         "mc_WillSet == " + tla_set([tla_val(w) for w in WILLS]),
         "mc_PubReqs == " + tla_set([tla_val(m) for m in (pubreqs or PUBREQS)]),
@@ -109,6 +111,7 @@ CONSTS = """CONSTANTS
  TopicSet <- mc_TopicSet
  FilterSet <- mc_FilterSet
  ObsFilter <- mc_ObsFilter
+ Obs2Filter <- mc_Obs2Filter
  Swap <- mc_Swap
  WillSet <- mc_WillSet
  PubReqs <- mc_PubReqs
